@@ -27,6 +27,7 @@ def dispatch (line : String) : String :=
     | "snap" => snapRun body
     | "ev" => evRun body
     | "runner" => runnerRun body
+    | "echo" => (body.splitOn " ").headD ""
     | "rules" => rulesRun body
     | _ => "bad-suite"
   | [] => "bad-line"
